@@ -23,7 +23,7 @@ from . import cluster_units as CU
 from .common import (bound_args, borrow, call_name, enclosing_loops, iteration_segments, path_must,
                      short, stmt_contains)
 
-FLOORS = {'C04.T1': 2, 'C04.T2': 7, 'C04.T3': 3, 'C04.T4': 1, 'C04.T6': 1, 'C04.T7': 1, 'C04.T8': 1}
+FLOORS = {'C04.T10': 1, 'C04.T1': 2, 'C04.T2': 7, 'C04.T3': 3, 'C04.T4': 1, 'C04.T6': 1, 'C04.T7': 1, 'C04.T8': 1}
 
 QUEUE = 'Scheduler.observation_queue'
 ORDER = ['UNSCHEDULED', 'SCHEDULED', 'RUNNING', 'FINISHED']
@@ -47,6 +47,7 @@ def check(repo, res, tier):
     t3(repo, res, canon, pc, logic)
     t4(repo, res, canon)
     t6(repo, res, canon, pc)
+    t10(repo, res, logic)
     from . import c11, c19
     borrow(repo, res, tier, c19, {'C19.K', 'C19.F'}, 'C04.T4')
     borrow(repo, res, tier, c11, {'C11.U3'}, 'C04.T5')
@@ -427,6 +428,40 @@ def t4(repo, res, canon):
             why = 'the loop condition is `%s`, not `not self.is_finished()`' % short(ast.unparse(t))
     (res.ok if ok else res.bad)('C04.T4', f, loops[0] if loops else None,
                                 'start() returns from the open-ended run only when is_finished()', 'ok' if ok else why)
+
+
+def t10(repo, res, logic):
+    """a stored observation is offered to the scheduler exactly when the hot tier is not over its
+    tiering threshold: no further condition can keep it waiting (it would never be processed)"""
+    from ..skel import outcomes
+    res.rule('C04.T10', 'Buffer.has_observations_ready_for_processing is true exactly under: stored observations '
+                        'and not over the data threshold')
+    f = repo.func('Buffer.has_observations_ready_for_processing')
+    outs = outcomes(logic, f, depth=0)
+    res.analysed(f, len(outs))
+    allowed = (r'truthy\(HotBuffer\.has_stored_observations\(\)\)',
+               r'(?:exists \$1 in Buffer\.hot: )?not truthy\(Buffer\.check_buffer_over_data_threshold\((?:\$1|\w+)\)\)')
+    n_t = 0
+    bad = None
+    for o in outs:
+        if o.result != 'T':
+            continue
+        n_t += 1
+        lits = {repr(l) for l in o.lits}
+        extra = [l for l in lits if not any(re.fullmatch(a, l) for a in allowed)]
+        need = [a for a in allowed if not any(re.fullmatch(a, l) for l in lits)]
+        if extra or need:
+            bad = (o, extra, need)
+    if n_t and bad is None:
+        res.ok('C04.T10', f, None, 'ready <=> stored and not over threshold', '%d true outcome(s)' % n_t)
+    elif not n_t:
+        res.bad('C04.T10', f, None, 'never true', 'has_observations_ready_for_processing can never be true: nothing is processed')
+    else:
+        o, extra, need = bad
+        res.bad('C04.T10', f, None, 'ready under %s' % short(' & '.join(sorted(map(repr, o.lits))), 90),
+                'a stored observation is offered for processing only if additionally %s%s: an observation for which that '
+                'never holds is never processed, although the run ends "normally"' % (
+                    short(', '.join(extra) or '-', 120), ('; missing: %s' % need) if need else ''), path=o.path.describe())
 
 
 def t6(repo, res, canon, pc):
